@@ -29,6 +29,7 @@ import E2P.Model.Peg
 import E2P.Generated.Grammar
 import E2P.Model.Quote
 import E2P.Model.Refs
+import E2P.Model.Safety
 import E2P.Generated.RuntimeConsts
 open E2P
 
@@ -577,6 +578,25 @@ def handleRefs (args : List String) : String :=
         | _, _, _ => "bad-op"
       | _ => "bad-op"
 
+/-! safety gate: `sf <S text>` → the suspicious fragments; `sk <S title> <col> <row>` → the report key -/
+def handleSafety (args : List String) : String :=
+  match args with
+  | [t] =>
+    match decVal [t] with
+    | some (.str s, []) =>
+      let m := " ".intercalate (encVal (.list ((suspicious s).map .str)))
+      s!"{m} | - | "
+    | _ => "bad-op"
+  | _ => "bad-op"
+
+def handleSafetyKey (args : List String) : String :=
+  match args with
+  | [t, c, r] =>
+    match decVal [t], c.toNat?, r.toNat? with
+    | some (.str s, []), some c, some r => let k := encStr (reportKey s c r); s!"{k} | {k} | "
+    | _, _, _ => "bad-op"
+  | _ => "bad-op"
+
 def handle (line : String) : String :=
   match tokens line with
   | "echo" :: rest =>
@@ -597,6 +617,8 @@ def handle (line : String) : String :=
   | "pg" :: rest => handlePeg rest
   | "qt" :: rest => handleQuote rest
   | "rf" :: rest => handleRefs rest
+  | "sf" :: rest => handleSafety rest
+  | "sk" :: rest => handleSafetyKey rest
   | _ => "bad-op"
 
 partial def loop (h : IO.FS.Stream) (out : IO.FS.Stream) : IO Unit := do
